@@ -804,5 +804,6 @@ fn main() {
             }
         });
         }
+        vp_circ::catalogue_sweep!(p, "catalogue.sweep", vp_circ::ops_foreign::visit_ops, p.tier.pick(3, 1), p.tier.pick(300, 100_000), 16);
     });
 }
